@@ -11,56 +11,7 @@ use std::sync::Arc;
 use vp_oracle as o;
 use vpcore::Space;
 
-/// fraction shapes of width nf (values < 2^nf): runs of ones from the top, runs of ones at the bottom,
-/// single bits, and a small menu
-pub fn shapes(nf: u32, rich: bool) -> Vec<u32> {
-    if nf == 0 {
-        return vec![0];
-    }
-    let full = ((1u64 << nf) - 1) as u32;
-    let mut v = vec![0, 1, full, full - (full > 0) as u32, 1 << (nf - 1), (1 << (nf - 1)) | 1, (1u32 << (nf - 1)).wrapping_sub(1) & full, 0x5555_5555 & full, 0x2aaa_aaaa & full];
-    for j in 1..nf {
-        v.push(full & !(((1u64 << (nf - j)) - 1) as u32)); // 1^j 0^(nf-j)
-        v.push(((1u64 << j) - 1) as u32); // 0^(nf-j) 1^j
-        if rich {
-            v.push(1 << j);
-            v.push((full & !(((1u64 << (nf - j)) - 1) as u32)) | 1); // 1^j 0.. 1
-        }
-    }
-    v.sort();
-    v.dedup();
-    v
-}
-
-/// positive posit with the given scale (= es-exponent + 2^es * regime k) and fraction shape index;
-/// returns None when the scale is out of range
-pub fn build(n: u32, es: u32, scale: i32, frac_of: impl Fn(u32) -> u32) -> Option<u32> {
-    let useed = 1i32 << es;
-    let k = scale.div_euclid(useed);
-    let e = scale.rem_euclid(useed) as u32;
-    let body = n - 1;
-    let (rbits, rl): (u64, u32) = if k >= 0 { ((((1u64 << (k + 1)) - 1) << 1), (k + 2) as u32) } else { (1, (-k + 1) as u32) };
-    if rl > body {
-        return None;
-    }
-    let avail = body - rl;
-    let ebits = avail.min(es);
-    if ebits < es && (e & ((1 << (es - ebits)) - 1)) != 0 {
-        return None;
-    }
-    let nf = avail - ebits;
-    let f = frac_of(nf);
-    Some(((rbits as u32) << (body - rl)) | ((e >> (es - ebits)) << nf) | f)
-}
-
-pub fn frac_bits(n: u32, es: u32, scale: i32) -> Option<u32> {
-    let nf = std::cell::Cell::new(0);
-    build(n, es, scale, |x| {
-        nf.set(x);
-        0
-    })?;
-    Some(nf.get())
-}
+pub use vpcore::alpha::{build, frac_bits, shapes};
 
 fn sparse_tail(m: u128, z: u32) -> bool {
     if m == 0 {
@@ -206,6 +157,56 @@ pub fn alphabet_x_near_one(n: u32, es: u32, rich: bool) -> Vec<u32> {
                 v.push(p);
                 v.push(p.wrapping_neg() & m);
             }
+        }
+    }
+    v.sort();
+    v.dedup();
+    v
+}
+
+/// Forced collisions for multiplication by modular inverse: for significands A (odd, nf+1 bits: every fraction
+/// shape with an odd last bit and a fixed LCG-generated list of `extra` unstructured odd fractions) and every
+/// target tail R (the low nf+1 bits of the exact product, i.e. guard bit + sticky bits when the product does not
+/// carry: exact tie, tie +- 1, just below the tie (0 1..1), all ones, lone lowest bit, lone bit under the guard,
+/// ...) the significand B = R * A^-1 mod 2^(nf+1) is solved for; pairs whose B is a normalised significand
+/// (top bit set) are kept. Both operands are in [1, 2) (scale 0), so they have the full fraction length.
+pub fn inverse_pairs(n: u32, es: u32, extra: u32) -> Vec<(u32, u32)> {
+    let nf = n - 3 - es; // fraction bits at scale 0
+    let w = nf + 1;
+    let modmask: u64 = (1u64 << w) - 1;
+    let one = 1u32 << (n - 2);
+    let mut fr: Vec<u32> = shapes(nf, true).into_iter().filter(|f| f & 1 == 1).collect();
+    let mut st: u64 = 0x2545_F491_4F6C_DD1D ^ ((n as u64) << 32) ^ es as u64;
+    for _ in 0..extra {
+        st = st.wrapping_mul(6364136223846793005).wrapping_add(1442695040888963407);
+        fr.push((((st >> 24) as u32) & (((1u64 << nf) - 1) as u32)) | 1);
+    }
+    fr.sort();
+    fr.dedup();
+    let half = 1u64 << nf; // the guard bit position within the tail
+    let targets: Vec<u64> = vec![
+        half, half + 1, half - 1, half | (1 << (nf / 2)), half + 3, modmask, modmask - 1, 1, 3, (half >> 1), (half >> 1) | 1,
+        half | (half >> 1), 0, 2, half - 2, (half >> 1) - 1,
+    ];
+    let inv = |a: u64| -> u64 {
+        // Newton iteration for the inverse of an odd number modulo 2^64
+        let mut x = a;
+        for _ in 0..6 {
+            x = x.wrapping_mul(2u64.wrapping_sub(a.wrapping_mul(x)));
+        }
+        x
+    };
+    let mut v = vec![];
+    for &f in &fr {
+        let a_sig = (1u64 << nf) | f as u64;
+        let ai = inv(a_sig);
+        for &r in &targets {
+            let b_sig = r.wrapping_mul(ai) & modmask;
+            if b_sig >> nf != 1 {
+                continue;
+            }
+            debug_assert_eq!(a_sig.wrapping_mul(b_sig) & modmask, r & modmask);
+            v.push((one | f, one | (b_sig as u32 & (((1u64 << nf) - 1) as u32))));
         }
     }
     v.sort();
